@@ -2,10 +2,10 @@
    Only statements, closed by [exact lemma], with Print Assumptions beneath. *)
 From Coq Require Import String List NArith Bool Permutation.
 From J5V.lib Require Import Outcome.
-From J5V.model Require Import Pipeline PipelineCorr.
+From J5V.model Require Import Pipeline PipelineCompile PipelineEntity PipelineValid PipelineCorr.
 From J5V.gen Require SwaggerGen.
 From J5V.lib Require Strcase.
-From J5V.proofs Require Import PipelineProofs PipelineStrcaseProofs StrcaseProofs PipelineChainProofs.
+From J5V.proofs Require Import PipelineProofs PipelineStrcaseProofs StrcaseProofs PipelineChainProofs PipelinePathProofs PipelineEntityProofs PipelineValidProofs.
 Import ListNotations.
 Local Open Scope N_scope.
 
@@ -18,8 +18,8 @@ Local Open Scope N_scope.
    exactly the schemas reachable from the methods; list methods (a j5.list.v1.QueryRequest in the
    request, one array of object references in the response) get the paths walked over their item
    object, recursive or not; the OpenAPI conversion succeeds.
-   Outside this statement (see the partial list in pylib/propcfg/C16.py): topics (C16_service_suffixes
-   only), entities. *)
+   topics (<Name>Topic services with <M>Message inputs returning Empty) are accepted and listed in
+   the source API. Outside this statement (see the partial list in pylib/propcfg/C16.py): entities. *)
 Definition C16_full_statement : Prop :=
   forall (to_snake : str -> str) (P : decl_package), valid_package to_snake P ->
     let r := run_chain current_config (compile_image to_snake P) in
@@ -36,6 +36,149 @@ Definition C16_full_statement : Prop :=
 Theorem C16_full : C16_full_statement.
 Proof. exact chain_full. Qed.
 Print Assumptions C16_full.
+
+
+
+(* the hypothesis of C16_full as a computable test: the compile-image stream evaluates it (with the model of
+   iancoleman/strcase ToSnake) on every generated package the real compiler accepted that has no entity and
+   no deliberately awkward property names, so each of them is inside C16_full *)
+Theorem C16_valid_test_sound : forall to_snake P, valid_package_b to_snake P = true -> valid_package to_snake P.
+Proof. exact valid_package_b_sound. Qed.
+Print Assumptions C16_valid_test_sound.
+
+(* ... instantiated with the byte-exact model of iancoleman/strcase ToSnake: the hypotheses on ToSnake are
+   replaced by a condition on the request's property names (lowerCamel: letters, no two adjacent capitals);
+   compile_image with this ToSnake is what the compile-image stream compares with the real compiler *)
+Theorem C16_full_strcase : forall P, valid_package_strcase P ->
+  let r := run_chain current_config (compile_image Strcase.to_snake P) in
+  exists ks,
+    cr_source r = Ok (declared_api P)
+    /\ cr_client r = Ok (declared_clients Strcase.to_snake P, ks)
+    /\ (forall x, In x ks <->
+          present (image_env Strcase.to_snake P) x /\
+          exists k, In k (flat_map method_roots (declared_clients Strcase.to_snake P))
+                    /\ present (image_env Strcase.to_snake P) k
+                    /\ reach (image_env Strcase.to_snake P) k x)
+    /\ cr_swagger r = Ok tt.
+Proof. exact chain_full_strcase. Qed.
+Print Assumptions C16_full_strcase.
+
+
+(* ... and for camelCase names with digits (lower_camel_d, proofs/StrcaseProofs.v: address2Line, fooB2,
+   v12Beta; still no two adjacent capitals) *)
+Theorem C16_full_strcase_digits : forall P, valid_package_strcase_d P ->
+  let r := run_chain current_config (compile_image Strcase.to_snake P) in
+  exists ks,
+    cr_source r = Ok (declared_api P)
+    /\ cr_client r = Ok (declared_clients Strcase.to_snake P, ks)
+    /\ (forall x, In x ks <->
+          present (image_env Strcase.to_snake P) x /\
+          exists k, In k (flat_map method_roots (declared_clients Strcase.to_snake P))
+                    /\ present (image_env Strcase.to_snake P) k
+                    /\ reach (image_env Strcase.to_snake P) k x)
+    /\ cr_swagger r = Ok tt.
+Proof. exact chain_full_strcase_d. Qed.
+Print Assumptions C16_full_strcase_digits.
+
+(* ---- each path parameter names a request property --------------------------------------------- *)
+(* about the code, without assuming that the declared path only uses request properties: whenever
+   buildMethod accepts a method, every ":name" of the client path is the JSON name of an input field of the
+   request message (a "{x}" part is mapped through the field found by proto name x; a literal part
+   containing ':' is rejected) ... *)
+Theorem C16_path_params_are_input_fields : forall m sm,
+  (forall f, In f (md_in_fields m) -> no_char SLASH (f_json f)) ->
+  build_method m = Ok sm ->
+  forall n, In n (path_param_names (sm_path sm)) -> exists f, In f (md_in_fields m) /\ f_json f = n.
+Proof. exact build_method_path_params. Qed.
+Print Assumptions C16_path_params_are_input_fields.
+
+(* ... and fillRequest puts the request property of that name among the path parameters *)
+Theorem C16_path_params_covered : forall verb path props n,
+  In n (path_param_names path) -> In n (map p_json props) ->
+  exists p, In p (r_path (fill_request verb path props)) /\ p_json p = n.
+Proof. exact fill_request_covers_params. Qed.
+Print Assumptions C16_path_params_covered.
+
+(* together, for what the compiler emits for a declared method (any ToSnake, any declared path) *)
+Theorem C16_path_params_name_request_properties : forall (to_snake : str -> str) (d : decl_full) sm,
+  (forall n, In n (map p_json (df_req d)) -> no_char SLASH n) ->
+  build_method (compile_method to_snake (df_decl d)) = Ok sm ->
+  forall n, In n (path_param_names (sm_path sm)) ->
+    exists p, In p (r_path (fill_request (sm_verb sm) (sm_path sm) (df_req d))) /\ p_json p = n.
+Proof. exact declared_path_params_name_props. Qed.
+Print Assumptions C16_path_params_name_request_properties.
+
+
+(* ---- entities ------------------------------------------------------------------------------------- *)
+(* walkSourceSchemas / includeEntity over the annotated objects of the package, in whatever order Go's map
+   iteration delivers them: when parts are in 1..4, every (entity, part) is annotated once and every entity
+   has its keys, state and event object, it does not fail and every keys / state / event object becomes a
+   walk root *)
+Theorem C16_walk_source_schemas_total : forall anns, wf_anns anns ->
+  exists es, walk_source_schemas anns = Ok es
+    /\ forall a, In a anns -> stored_part (a_part a) -> In (a_key a) (entity_roots es).
+Proof. exact walk_source_schemas_total. Qed.
+Print Assumptions C16_walk_source_schemas_total.
+
+(* every schema reachable from a property of an entity's keys / state / event object is in the client
+   package's schema set *)
+Theorem C16_entity_roots_closed : forall (im : image) (ms : list client_method) ks r s k x,
+  collect_refs im ms = Ok ks ->
+  In r (im_roots im) -> lookup (im_schemas im) r = Some s -> In k (succs s) ->
+  present (cenv (im_schemas im)) k -> reach (cenv (im_schemas im)) k x -> present (cenv (im_schemas im)) x ->
+  In x ks.
+Proof. exact entity_roots_closed. Qed.
+Print Assumptions C16_entity_roots_closed.
+
+(* the chain with entities, PARTIAL: from the method stage on. What an entity expands to on the compiler
+   side (its generated query / command services and their request / response objects) is not in
+   compile_image, so the source and method stages are hypotheses here (they are theorems for declared
+   services: C16_full). *)
+Theorem C16_chain_with_entities_partial : forall im anns api ms,
+  add_structure (im_services im) {| sa_services := []; sa_topics := [] |} = Ok api ->
+  wf_anns anns ->
+  (forall es, walk_source_schemas anns = Ok es -> exists evs, omapM (entity_events (im_schemas im)) es = Ok evs) ->
+  all_refs_link (im_schemas im) = true -> wf_env (im_schemas im) -> flat_free (im_schemas im) ->
+  (forall es, walk_source_schemas anns = Ok es -> forall k, In k (entity_roots es) -> present (im_schemas im) k) ->
+  methods_from_source true (with_roots im []) api = Ok ms ->
+  Forall wf_client_method ms ->
+  (forall k, In k (flat_map method_roots ms) -> present (im_schemas im) k) ->
+  let r := run_chain_ent current_config im anns in
+  exists es ks,
+    walk_source_schemas anns = Ok es
+    /\ cr_source r = Ok api
+    /\ cr_client r = Ok (ms, ks)
+    /\ (forall x, In x ks <->
+          present (im_schemas im) x /\
+          exists k, In k (root_refs (im_schemas im) (entity_roots es) ++ flat_map method_roots ms)
+                    /\ present (im_schemas im) k /\ reach (im_schemas im) k x)
+    /\ cr_swagger r = Ok tt.
+Proof. exact chain_with_entities. Qed.
+Print Assumptions C16_chain_with_entities_partial.
+
+
+(* ---- flattened object fields (ObjectSchema.ClientProperties) ------------------------------------ *)
+(* the reference walk sees an object through its client properties: its own properties that are not
+   flattened fields, and the client properties of every object it flattens *)
+Theorem C16_client_props_keep : forall g f ps cps p,
+  client_props (S f) g ps = Some cps -> In p ps -> is_flat (p_ty p) = None -> In p cps.
+Proof. exact client_props_keeps. Qed.
+Print Assumptions C16_client_props_keep.
+
+Theorem C16_client_props_flatten : forall g f ps cps p k qs cqs,
+  client_props (S f) g ps = Some cps -> In p ps -> is_flat (p_ty p) = Some k ->
+  lookup g k = Some (SObject qs) -> client_props f g qs = Some cqs -> incl cqs cps.
+Proof. exact client_props_flattens. Qed.
+Print Assumptions C16_client_props_flatten.
+
+(* the collected schema set is closed under the references of its members' client properties: in
+   particular what a flattened child refers to is collected with the host *)
+Theorem C16_collected_closed : forall (im : image) (ms : list client_method) ks h s c,
+  collect_refs im ms = Ok ks -> In h ks ->
+  lookup (cenv (im_schemas im)) h = Some s -> In c (succs s) -> present (cenv (im_schemas im)) c ->
+  In c ks.
+Proof. exact collected_closed. Qed.
+Print Assumptions C16_collected_closed.
 
 (* ---- source API: exactly the declared services and methods, declared verb and path ------- *)
 (* buildMethod on what the compiler emits for one method: accepted, verb and path recovered.
@@ -141,6 +284,7 @@ Proof. exact list_walk_total. Qed.
 Print Assumptions C16_list_walk_total.
 
 Theorem C16_list_method_total : forall (im : image) sub svc (m : src_method) req resp root,
+  flat_free (im_schemas im) ->
   all_refs_link (im_schemas im) = true ->
   lookup (im_schemas im) (sub_pkg im sub, sm_req m) = Some (SObject req) ->
   str_eqb (sm_resp m) HTTPBODY_SHORT = false ->
@@ -223,6 +367,7 @@ Definition ex_pkg : decl_package :=
             df_parts := [[]; bytes_of "node"; COLON :: bytes_of "nodeId"];
             df_req := [{| p_json := bytes_of "nodeId"; p_ty := TScalar "key" |}; {| p_json := bytes_of "when"; p_ty := TScalar "timestamp" |}];
             df_resp := None |}])];
+     dp_topics := [{| dt_name := bytes_of "TreeFeed"; dt_msgs := [bytes_of "NodeAdded"; bytes_of "NodeDropped"] |}];
      dp_schemas := [(node, SObject [{| p_json := bytes_of "children"; p_ty := TArray (TRef "object" node) |};
                                     {| p_json := bytes_of "payload"; p_ty := TMap (TScalar "bytes") |}])] |}.
 
@@ -260,7 +405,7 @@ Proof.
     { unfold wf_env. apply Forall_forall. intros ks Hks. vm_compute in Hks.
       repeat (destruct Hks as [<-|Hks]; [unfold wf_props; cbn [snd schema_props]; repeat (apply Forall_cons; [vm_compute; reflexivity|]); apply Forall_nil|]).
       contradiction. }
-    intros k [<-|[]]. vm_compute. discriminate.
+    apply (flat_free_b_sound). vm_compute. reflexivity.
 Qed.
 
 (* a list method over a self-recursive item object: the chain succeeds and the list request carries
@@ -273,6 +418,7 @@ Definition ex_list_pkg : decl_package :=
         [{| df_name := bytes_of "ListNodes"; df_verb := GET; df_parts := [[]; bytes_of "nodes"];
             df_req := [{| p_json := bytes_of "query"; p_ty := TRef "object" qr |}];
             df_resp := Some [{| p_json := bytes_of "nodes"; p_ty := TArray (TRef "object" node) |}] |}])];
+     dp_topics := [];
      dp_schemas := [(node, SObject [{| p_json := bytes_of "flag"; p_ty := TScalar "bool" |};
                                     {| p_json := bytes_of "next"; p_ty := TRef "object" node |}]);
                     (qr, SObject [])] |}.
@@ -308,3 +454,12 @@ Proof. cbv zeta. split; [vm_compute; reflexivity|]. eexists. split; vm_compute; 
 Example C16_example_swagger :
   wf_ty (TArray (TScalar "timestamp")) /\ convert_ok SwaggerGen.convert_schema_arms (TMap (TScalar "decimal")) = true.
 Proof. split; vm_compute; reflexivity. Qed.
+
+(* two entities whose keys / data / state / event objects arrive in a shuffled order: the hypotheses of
+   C16_walk_source_schemas_total hold and the six keys / state / event objects are the walk roots *)
+Example C16_example_entities :
+  wf_anns ent_ex_anns
+  /\ omap entity_roots (walk_source_schemas ent_ex_anns)
+     = Ok [ (ent_ex_pkg, bytes_of "WidgetKeys"); (ent_ex_pkg, bytes_of "WidgetState"); (ent_ex_pkg, bytes_of "WidgetEvent");
+            (ent_ex_pkg, bytes_of "GadgetKeys"); (ent_ex_pkg, bytes_of "GadgetState"); (ent_ex_pkg, bytes_of "GadgetEvent") ].
+Proof. exact (conj ent_ex_anns_wf ent_ex_anns_result). Qed.
